@@ -34,7 +34,7 @@ CHECKS = {'C10': {'level': 'exploration',
                          'dstep = one constant for one observed label, zero elsewhere; scores floored at 1e3*eps',
                          'tolerance of the statement: |score - best| <= 1e-9 (1 + best) with the floor applied to '
                          'both sides; algebraic clauses (add, scale, merge) 1e-12 relative, permutation exactly'],
-         'deadline': {'quick': 240, 'thorough': 1500},
+         'deadline': {'quick': 480, 'thorough': 2400},
          'stages': [{'name': 'optimal',
                      'harness': 'c10_wlearner',
                      'args': ['--stage', 'optimal'],
